@@ -452,6 +452,9 @@ def gen_consts():
     SL("searchItemReplace", [const_eval(n.args[0]) for n in ast.walk(se.func("_ExactLanguageSearch.parse_item")) if isinstance(n, ast.Call) and getattr(n.func, "attr", "") == "replace"], "search.py parse_item removed substrings")
     RX("reSearchRelative", regex_of(se.assign("RELATIVE_REG")), "search.py RELATIVE_REG")
 
+    _o, _lld, _lm, _infos = load_lang_infos()
+    SL("langsWithoutDateOrder", sorted(n for n, i in _infos.items() if "date_order" not in i), "data/date_translation_data: languages whose data has no date_order of its own")
+
     sp = Src("dateparser/utils/strptime.py")
     RX("reTimeMatcher", regex_of(sp.assign("TIME_MATCHER")), "utils/strptime.py TIME_MATCHER")
     RX("reMsSearcher", regex_of(sp.assign("MS_SEARCHER")), "utils/strptime.py MS_SEARCHER")
